@@ -12,6 +12,8 @@ EXPLANATION = (
     "channel closed; poll_requests_completion returns Pending only after the channel itself answered Pending (so every "
     "queued end was drained and the waker is registered); ongoing_streams is decremented only by an id received from the "
     "channel whose only sender is the guard's Drop; every stream returned was inserted first.")
+# every anchor of these rules lives in the h3 crate: thorough tier repeats them on the feature-less build
+EXTRA_CONFIGS = ["h3-plain"]
 RULES = "C09-a guard tied to every handle (A12/A10/A4); C09-b shared by both halves (A4/A12); C09-c completion gating and draining (A2/A3/A7/A10)"
 
 SV = "h3::server::connection::Connection::"
